@@ -78,6 +78,30 @@ def run(ctx):
     for i, out in zip(pool, outs):
         for k, o in enumerate(out):
             ref[(i, k)] = o
+    def corrupt(v):
+        """an ill-typed variant: the LAST integer leaf becomes too large for any integer type, or the
+        last string leaf becomes null (so that an encode fails part-way, after earlier writes)"""
+        path = []
+
+        def walk(x, p):
+            if x[0] in ("arr", "ent"):
+                for k, y in enumerate(x[1]):
+                    walk(y, p + [k])
+            elif x[0] in ("int", "str"):
+                path.append(p)
+        walk(v, [])
+        if not path:
+            return None
+
+        def rebuild(x, p):
+            if not p:
+                return ("int", 2**70) if x[0] == "int" else ("int", 2**70)
+            items = list(x[1])
+            items[p[0]] = rebuild(items[p[0]], p[1:])
+            return (x[0], items)
+        return rebuild(v, path[-1])
+
+    bad_vals = {i: corrupt(vals[i][0]) for i in pool}
     n_ops = 0
     # (i) histories in fresh interpreters
     n_hist = 12 if quick else 120
@@ -99,11 +123,13 @@ def run(ctx):
                 k = r.randrange(2)
                 if ref[(i, k)][0] == "ok":
                     ops.append(["r", i, ref[(i, k)][1]]); expect.append(("r", i, k))
-            else:
+            elif c < 0.9:
                 k = r.randrange(2)
                 if ref[(i, k)][0] == "ok":
                     nw = ref[(i, k)][2]
                     ops.append(["w", i, to_json(vals[i][k]), r.randrange(max(nw, 1))]); expect.append(("wf", i, k))
+            elif bad_vals[i] is not None:
+                ops.append(["w", i, to_json(bad_vals[i])]); expect.append(None)      # fails because of the value
         hist_jobs.append((h, ops, expect))
     with ThreadPoolExecutor(12) as ex:
         hist_outs = list(ex.map(lambda j: worker(ctx, {"ops": j[1]}), hist_jobs))
@@ -139,6 +165,11 @@ def run(ctx):
                 ops.append(["w", i, to_json(vals[i][k]), j])
                 ops.append(["w", i, to_json(vals[i][k])])
                 ops.append(["w", i, to_json(vals[i][1 - k])])
+            if bad_vals[i] is not None:
+                for _ in range(2):
+                    ops.append(["w", i, to_json(bad_vals[i])])
+                    ops.append(["w", i, to_json(vals[i][k])])
+                    ops.append(["w", i, to_json(vals[i][1 - k])])
             data = want[1]
             # reader faults: at every read call
             probe = worker(ctx, {"ops": [["r", i, data]]})[0]
@@ -150,6 +181,8 @@ def run(ctx):
             n += len(ops)
             for op, o in zip(ops, out):
                 faulted = len(op) > 3 and op[3] is not None
+                if op[0] == "w" and bad_vals[i] is not None and op[2] == to_json(bad_vals[i]):
+                    continue                      # expected to fail; what matters is what follows
                 if op[0] == "w":
                     kk = k if op[2] == to_json(vals[i][k]) else 1 - k
                     w2 = ref[(i, kk)]
